@@ -215,6 +215,10 @@ def run_stage_shards(prop, tier, seed, stage, workdir):
     exe = build.build_driver(stage['flavour'], stage['driver'])
     nshards = stage.get('shards', {}).get(tier, jobs())
     nshards = max(1, min(nshards, 64))
+    # subsample q: the stage runs every q-th case only (cases k with k mod q == seed mod q), spread over the same number of shards
+    q = max(1, int(stage.get('subsample', {}).get(tier, 1)))
+    total = nshards * q
+    picks = [s * q + (seed % q) for s in range(nshards)]
     env = dict(os.environ)
     env['ASAN_OPTIONS'] = ASAN_OPTIONS
     env['UBSAN_OPTIONS'] = UBSAN_OPTIONS
@@ -223,8 +227,8 @@ def run_stage_shards(prop, tier, seed, stage, workdir):
     sdir = os.path.join(workdir, stage['driver'] + '-' + stage['flavour'])
     os.makedirs(sdir, exist_ok=True)
     with ThreadPoolExecutor(max_workers=jobs()) as ex:
-        futs = [ex.submit(run_shard, exe, prop, tier, seed, s, nshards, sdir, timeout, stage.get('args', []), env)
-                for s in range(nshards)]
+        futs = [ex.submit(run_shard, exe, prop, tier, seed, s, total, sdir, timeout, stage.get('args', []), env)
+                for s in picks]
         return [f.result() for f in futs]
 
 
